@@ -183,16 +183,16 @@ GROUPS = {
     "C11": [
     ] + [
         Group(name="pool.blocks_ctor.%s" % lem, units=[make_ctor(lem)], harness=H("blocks_ctor", "blocks_ctor(b, nondet_size_t(), nondet_size_t(), nondet_size_t(), nondet_size_t())", "struct blocks *b;"),
-              entry="h_blocks_ctor", enforce="blocks_ctor", backend="cadical", timeout=900, min_obligations=8,
+              entry="h_blocks_ctor", enforce="blocks_ctor", backend="cadical", timeout=900, min_obligations=8, replay="replay/pool.cpp",
               clause="blocks constructor, lemma '%s' (%s); no division by zero, all 64-bit ranges, any min_size" % (lem, CTOR_LEMMAS[lem]))
         for lem in CTOR_LEMMAS
     ] + [
         Group(name="pool.blocks_start", units=[blocks_ctor, blocks_start], harness=H("blocks_start", "size_t r = blocks_start(b, nondet_size_t())", "const struct blocks *b;"),
               entry="h_blocks_start", enforce="blocks_start", backend="cvc5", timeout=600, min_obligations=3, no_checks=["--pointer-overflow-check"],
               clause="start(0) = first; no overflow in start(k) for indices <= 2^40"),
-        Group(name="pool.blocks_mono", units=[blocks_ctor, blocks_start], harness=H_MONO, entry="h_mono", backend="cvc5", timeout=600, min_obligations=3,
+        Group(name="pool.blocks_mono", units=[blocks_ctor, blocks_start], harness=H_MONO, entry="h_mono", backend="cvc5", timeout=600, min_obligations=3, replay="replay/pool.cpp",
               clause="blocks non-empty, strictly increasing, lengths size or size+1 (so every index lies in exactly one block)"),
-        Group(name="pool.blocks_last", units=[blocks_ctor, blocks_start, blocks_end], harness=H_LAST, entry="h_last", backend="cvc5", timeout=600, min_obligations=3,
+        Group(name="pool.blocks_last", units=[blocks_ctor, blocks_start, blocks_end], harness=H_LAST, entry="h_last", backend="cvc5", timeout=600, min_obligations=3, replay="replay/pool.cpp",
               clause="the last block ends at index_after_last, is non-empty and no earlier block reaches past it (uses the assumed division identity)"),
         Group(name="pool.blocks_num", units=[blocks_ctor, blocks_num], harness=H("blocks_num_blocks", "size_t r = blocks_num_blocks(b)", "const struct blocks *b;"),
               entry="h_blocks_num_blocks", enforce="blocks_num_blocks", timeout=60, min_obligations=1, clause="num_blocks() accessor"),
